@@ -120,8 +120,13 @@ Fixpoint apply_datum (c : codec) (dest : gval) (d : datum) {struct c} : option g
 Definition int_datum (s : schema) (z : Z) : option datum :=
   match s with SInt _ => Some (DInt z) | SLong _ => Some (DLong z) | _ => None end.
 
-Definition is_empty_coll (c : codec) : option datum :=
-  match c with CArray _ _ _ => Some (DArray []) | CMap _ _ _ => Some (DMap []) | _ => None end.
+Fixpoint is_empty_coll (c : codec) {struct c} : option datum :=
+  match c with
+  | CArray _ _ _ => Some (DArray [])
+  | CMap _ _ _ => Some (DMap [])
+  | CPtr c' _ | CCustom _ c' => is_empty_coll c'
+  | _ => None
+  end.
 
 Fixpoint datum_of (c : codec) (s : schema) (v : gval) {struct c} : option datum :=
   match c with
